@@ -635,6 +635,45 @@ def check_sample_documents(ctx):
                'propensity whose rate is that law' % (reac, prod, law), '; '.join(problems))
 
 
+def check_every_reaction_kept(ctx, f, lp):
+    """Every reaction element of the document becomes a reaction of the model: the loop over getListOfReactions appends one tuple on
+    every pass that reaches its end - the append is not under a condition, and no pass is cut short by continue / break."""
+    problems = []
+    ret = [r for r in ast.walk(f) if isinstance(r, ast.Return) and r.value is not None]
+    lists = set()
+    for r in ret:
+        for e in (r.value.elts if isinstance(r.value, ast.Tuple) else [r.value]):
+            if isinstance(e, ast.Name):
+                lists.add(e.id)
+    apps = [c for c in ast.walk(lp) if isinstance(c, ast.Call) and isinstance(c.func, ast.Attribute) and c.func.attr in ('append', 'insert', 'extend')
+            and isinstance(c.func.value, ast.Name) and c.func.value.id in lists and 'reaction' in c.func.value.id]
+    if not apps:
+        raise AnalysisError('import_sbml_reactions: the statement that stores the imported reaction was not found')
+    for c in apps:
+        cur = c
+        while getattr(cur, '_parent', None) is not None and cur is not lp:
+            par = cur._parent
+            if isinstance(par, (ast.If, ast.While)) or (isinstance(par, ast.For) and par is not lp) or isinstance(par, ast.Try):
+                problems.append('`%s` (%s) runs only under `%s`' % (src(c)[:50], ctx.loc('sbmlutil', c),
+                                                                     src(par.test)[:60] if isinstance(par, (ast.If, ast.While)) else type(par).__name__))
+                break
+            cur = par
+    def direct(stmts):
+        for st in stmts:
+            if isinstance(st, (ast.Continue, ast.Break)):
+                yield st
+            elif isinstance(st, ast.If):
+                yield from direct(st.body)
+                yield from direct(st.orelse)
+            elif isinstance(st, ast.Try):
+                yield from direct(st.body + st.orelse + st.finalbody + [y for h in st.handlers for y in h.body])
+    for st in direct(lp.body):
+        problems.append('a pass over a reaction is cut short by `%s` (%s)' % (type(st).__name__.lower(), ctx.loc('sbmlutil', st)))
+    ctx.ob('R13.3-stoichiometry', 'every-reaction-kept', not problems, ctx.loc('sbmlutil', lp),
+           'each reaction element of the document contributes a reaction to the model (none is skipped or merged with an earlier one)',
+           '; '.join(problems[:2]))
+
+
 def check_assembly(ctx):
     f = func(ctx, 'import_sbml')
     txt = [util.stmt_key(s).replace(' ', '') for s in ast.walk(f) if isinstance(s, ast.stmt)]
@@ -685,6 +724,7 @@ def check(ctx):
     check_rules(ctx, f, lp, ps)
     f2, lp2, ps2 = check_leaks(ctx, 'import_sbml_reactions', 'getListOfReactions')
     check_stoichiometry(ctx, f2, lp2)
+    check_every_reaction_kept(ctx, f2, lp2)
     check_local_params(ctx, f2, lp2)
     check_species(ctx)
     check_assembly(ctx)
